@@ -1015,7 +1015,7 @@ def lin_collect(prop, tier, seed, work, beh_path, offset):
     inputs = os.path.join(work, "lin-in.ndjson")
     open(inputs, "w").close()
     nsched = 0
-    choices = dict(C02=["setpoll", "drop2"], C03=["drop2", "dropup"], C04=["setpoll", "drop2", "dropup"])[prop]
+    choices = dict(C02=["setpoll", "drop2", "uniq"], C03=["drop2", "dropup", "uniq"], C04=["setpoll", "drop2", "dropup"])[prop]
     for ch in choices:
         # design level: the repaired model (atomic drop decision) satisfies the invariants for all interleavings
         c = os.path.join(work, "MCObsConc-%s.cfg" % ch)
@@ -1053,6 +1053,13 @@ def lin_collect(prop, tier, seed, work, beh_path, offset):
               constraints=["BoundTree"], invariants=["PrintAtDepth"])
     free = os.path.join(work, "lin-free.ndjson")
     kfree, _ = gen_behaviours("GenLin", c, work, free, "sim", num=150 if quick else 6000, depth=15, seed=seed, tag="glin")
+    if prop in ("C02", "C03"):
+        # the unique Observable: thread 1 owns it (set / update / drop), the other threads subscribe and wait
+        c = os.path.join(work, "GenLinU.cfg")
+        write_cfg(c, spec=spec, constants=dict(LIN_CONST, Kinds={"unique"}, Threads={1, 2, 3}, Depth=12, SetupMin=2, SetupMax=4),
+                  constraints=["BoundTree"], invariants=["PrintAtDepth"])
+        ku, _ = gen_behaviours("GenLin", c, work, free, "sim", num=60 if quick else 3000, depth=13, seed=seed + 1, tag="glinu")
+        kfree += ku
     with open(inputs, "a") as o, open(free) as i:
         for line in i:
             o.write(line)
